@@ -41,10 +41,14 @@ def rows_ints(rows):
     return out
 
 
-def crash_ints(old, new, nsteps, cut):
+def crash_ints(old, new, nsteps, cut, stale=None):
     out = [4, PROC]
     out += ([1] + rows_ints(old)) if old is not None else [0]
-    out += [0]                      # no stale temporary file
+    if stale is None:
+        out += [0]                      # no stale temporary file
+    else:
+        b = list(stale.encode())
+        out += [1, len(b)] + b          # a temporary file left by an earlier interrupted write
     out += rows_ints(new) + [nsteps, cut]
     return out
 
@@ -111,14 +115,16 @@ def check_crashes(res, ctx, jobs):
     """jobs: (truth, year, old, new, today, avail, spec, lookups)"""
     st = ctx["stats"]
     hcases, m1 = [], []
-    for truth, y, old, new, today, avail, spec, lookups in jobs:
+    stales = [j[8] if len(j) > 8 else None for j in jobs]
+    jobs = [j[:8] for j in jobs]
+    for (truth, y, old, new, today, avail, spec, lookups), stale in zip(jobs, stales):
         hcases.append({"truth": [dict(o) for o in truth], "year": y,
                        "old": [[d, s] for d, s in old] if old is not None else None,
                        "new": [[d, s] for d, s in new], "crash": spec, "today": today, "avail": avail,
-                       "lookups": lookups})
+                       "lookups": lookups, "stale_tmp": stale})
         total = len(render(new))
         n, cut = steps_of(spec, len(new), total)
-        m1.append(crash_ints(old, new, n, cut))
+        m1.append(crash_ints(old, new, n, cut, stale))
     impl = run_harness(ctx["exe"], "crash", hcases, nproc=8)
     mod1 = run_model(m1, group="rates")
     # model: directory after the crash
@@ -157,6 +163,15 @@ def check_crashes(res, ctx, jobs):
         if io.get("status") != "ok":
             res.violation("failing-input", "crash case panicked: %s" % io.get("panic"), {"input": hc})
             continue
+        if stales[k] is not None:
+            st["stale-temporary-file"] += 1
+        if not spec and old is not None:
+            # a complete write over an existing year: the live name must now refer to ANOTHER file
+            # (rename of the temporary file); the same inode means the live file was rewritten in place
+            st["inode-checks"] += 1
+            if io.get("live_inode_before") is not None and io.get("live_inode_before") == io.get("live_inode_after"):
+                ctx["oracle_failures"].append((hc, "after a complete write the cache file rates-%d.csv is still the same file (inode %s): it was rewritten in place, not replaced atomically by a rename" % (y, io.get("live_inode_after")),
+                                               {"crash": spec, "actual_impl": "same inode", "expected_spec": "new inode (temporary file renamed over the live file)"}))
         if not spec:
             # a complete write: the steps the write path reports are the steps of the modelled procedure
             st["traces"] += 1
@@ -323,6 +338,14 @@ def run(res, ctx):
         total = len(render(new))
         for spec in STEPS[PROC] + [""]:
             jobs.append((truth, y, old, new, today, avail, spec, pick_lookups(rng, new, rng.randrange(total))))
+        # the same write after an EARLIER interrupted write left a temporary file behind that is longer
+        # than the new content (more rows, last one cut inside its digits)
+        longer = new + [(new[-1][0] + 1 + j, new[j % len(new)][1]) for j in range(rng.randint(1, 6))]
+        stale = render(longer)
+        stale = stale[: len(stale) - rng.randint(1, 5)]
+        for spec in ["", "", STEPS[PROC][-1], "bytes:%d" % rng.randrange(total + 1)]:
+            jobs.append((truth, y, old, new, today, avail, spec,
+                         pick_lookups(rng, new, total - 1) + [longer[-1][0]], stale))
         if tier == "thorough" and k == 0:
             offsets = list(range(total + 1))       # every byte offset of a 30-row year
         else:
